@@ -140,6 +140,7 @@ class Result:
         self.maxcnt = {}
         self.samples = []
         self.nt = set()
+        self.nt_own = set()
         self.harness_fail = []
         self.inconclusive = []
         self.ubsan_diag = 0
@@ -153,7 +154,7 @@ class Result:
             self.cnt[k] = self.cnt.get(k, 0) + v
 
 
-def _read_out(path, res, runname, seed, prop_filter):
+def _read_out(path, res, runname, seed, prop_filter, remap=None):
     done = False
     try:
         with open(path) as f:
@@ -164,6 +165,9 @@ def _read_out(path, res, runname, seed, prop_filter):
                     continue
                 t = o.get("t")
                 if t == "viol":
+                    if remap and o.get("prop") in remap:
+                        o["key"] = remap[o["prop"]] + ":sync:" + o["key"]
+                        o["prop"] = remap[o["prop"]]
                     o["run"] = runname
                     o["seed"] = seed
                     with res.lock:
@@ -179,15 +183,16 @@ def _read_out(path, res, runname, seed, prop_filter):
                     done = True
     except OSError:
         pass
-    try:
-        a = array.array("Q")
-        with open(path + ".nt", "rb") as f:
-            data = f.read()
-        a.frombytes(data[: len(data) // 8 * 8])
-        with res.lock:
-            res.nt.update(a)
-    except OSError:
-        pass
+    for ntp, dest in ((path + ".nt", res.nt), (path + ".nt." + prop_filter, res.nt_own)):
+        try:
+            a = array.array("Q")
+            with open(ntp, "rb") as f:
+                data = f.read()
+            a.frombytes(data[: len(data) // 8 * 8])
+            with res.lock:
+                dest.update(a)
+        except OSError:
+            pass
     return done
 
 
@@ -230,7 +235,7 @@ def run_chunk(binary, run, seed, lo, hi, outbase, res, prop, env_extra=None):
                 p.kill()
                 rc = p.wait()
         stderr = open(errp, errors="replace").read()
-        done = _read_out(out, res, run["name"], seed, prop)
+        done = _read_out(out, res, run["name"], seed, prop, run.get("remap_props"))
         with res.lock:
             res.ubsan_diag += count_ubsan_diag(stderr)
             if run.get("tsan"):
@@ -246,7 +251,7 @@ def run_chunk(binary, run, seed, lo, hi, outbase, res, prop, env_extra=None):
             try:
                 p2 = subprocess.run(cmd2, stdout=subprocess.DEVNULL, stderr=subprocess.DEVNULL, env=env,
                                     timeout=run.get("case_timeout", 120), cwd=os.path.dirname(binary))
-                _read_out(out2, res, run["name"], seed, prop)
+                _read_out(out2, res, run["name"], seed, prop, run.get("remap_props"))
                 with res.lock:
                     res.add_cnt("runner/timeout_then_ok", 1)
             except subprocess.TimeoutExpired:
@@ -370,7 +375,7 @@ def execute(spec, tier, seed, only_case=None):
             if only_case is None and res.cnt.get(k, 0) < fl:
                 res.inconclusive.append("counter %s=%d below floor %d" % (k, res.cnt.get(k, 0), fl))
 
-        nt = len(res.nt) * 1
+        nt = len(res.nt) + len(res.nt_own)
         if only_case is None:
             cov = dict(
                 evaluations=int(res.evaluations),
